@@ -263,7 +263,7 @@ func anyReplay(c *runCtx, raw json.RawMessage) string {
 }
 
 func init() {
-	for _, p := range []string{"C08", "C09", "C12", "C15"} {
+	for _, p := range []string{"C04", "C08", "C09", "C12", "C15"} {
 		vReplayers[p] = anyReplay
 	}
 }
